@@ -34,7 +34,7 @@ def run(ctx):
     quick = ctx.quick()
     # --- the loop: design level ---------------------------------------------------------------------------------
     ctx.design("MC_MLMC", "MLMC_quick.cfg" if quick else "MLMC_thorough.cfg",
-               constants="ConfsQuick" if quick else "ConfsThorough", timeout=3000)
+               constants="ConfsQuick" if quick else "ConfsThorough", timeout=3000 if quick else 14400)
     ctx.design("MC_MLMC", "MLMC_live.cfg", constants="ConfsLive, weak fairness, no state constraint", coverage=False)
     ctx.design("MC_MLMC", "MLMC_exit.cfg", constants="ConfsQuick", coverage=False)   # known finding C06-fallout
     ctx.exhaustive = True
